@@ -197,6 +197,8 @@ reg("C05",
     )
 
 import thorough_names
+reg("C04", *[H("c04t", n, tier="thorough", timeout=1500, mem=16, bounds="handshake type and declared length concrete (%s), body and following byte symbolic" % n[5:],
+               funcs=["parse_tls_message_handshake"]) for n in thorough_names.C04T])
 reg("C05", *[H("c05t", n, tier="thorough", timeout=1200, mem=12, bounds="extension type and content length concrete (%s), content and following byte symbolic; three dispatchers" % n[5:],
                funcs=["parse_tls_extension", "parse_tls_client_hello_extension", "parse_tls_server_hello_extension"]) for n in thorough_names.C05T])
 reg("C05", H("c05", "c05_false_twin_dispatch_native", tier="thorough", expect_fail=True, bounds="vacuity guard: same body + assert!(false); must FAIL"))
